@@ -8,6 +8,7 @@ Residue (not provable here): the Go code really executes these regions atomicall
 enabled step are eventually scheduled, and the clock values `release`/`clean` read.
 -/
 import FhVerif.Proofs.WorkerPool
+import FhVerif.Gen.WpRegions
 
 namespace Fh.Props.C13
 open Fh.Model.WP Fh.Proofs.WorkerPool
@@ -178,6 +179,37 @@ theorem clean_retires_prefix (s : State) (crit : Nat) (hs : s.ready.Pairwise (fu
   refine ⟨hc, _, rfl, ?_, ?_⟩
   · simp only [hc]; exact drop_length_takeWhile _ _
   · simp only [hc]; rw [take_length_takeWhile]
+
+/-! ### regenerated structural facts: the events of the model are the lock regions of workerpool.go
+
+`fhextract` recomputes the `wp.lock` regions of the five methods on every run (Gen/WpRegions.lean). Each of
+`getCh`, `release`, `clean`, `Stop` and the tail of `workerFunc` must be ONE critical section that contains every
+access to `ready` / `mustStop` / `workersCount` the corresponding event of `step` performs, and nothing of it may
+happen outside. In particular `Stop` drains `ready`, sends the nils and sets `mustStop` inside a single region
+(event `stop`): if it is split, `release` can run in between, see `mustStop = false` and re-append a worker that
+nobody stops any more — the transition system above would no longer describe the code. -/
+
+theorem getCh_is_one_region :
+    Gen.wpRegions_getCh.length = 1 ∧ Gen.wpUnlocked_getCh = [] ∧
+    (∀ t ∈ ["r:ready", "w:ready", "r:workersCount", "w:workersCount"], t ∈ Gen.wpRegions_getCh.flatten) := by decide
+
+theorem release_is_one_region :
+    Gen.wpRegions_release.length = 1 ∧ Gen.wpUnlocked_release = [] ∧
+    (∀ t ∈ ["r:mustStop", "w:ready"], t ∈ Gen.wpRegions_release.flatten) := by decide
+
+/-- clean: the cut of `ready` is one region; only the nil notifications happen outside (event `notify`) -/
+theorem clean_is_one_region_sends_outside :
+    Gen.wpRegions_clean.length = 1 ∧ Gen.wpUnlocked_clean = ["send"] ∧
+    (∀ t ∈ ["r:ready", "w:ready"], t ∈ Gen.wpRegions_clean.flatten) ∧ "send" ∉ Gen.wpRegions_clean.flatten := by decide
+
+/-- Stop: draining `ready`, the nil sends and `mustStop = true` are one critical section -/
+theorem stop_is_one_region :
+    Gen.wpRegions_Stop.length = 1 ∧ Gen.wpUnlocked_Stop = [] ∧
+    (∀ t ∈ ["r:ready", "w:ready", "send", "w:mustStop"], t ∈ Gen.wpRegions_Stop.flatten) := by decide
+
+theorem workerFunc_exit_is_one_region :
+    Gen.wpRegions_workerFunc.length = 1 ∧ Gen.wpUnlocked_workerFunc = [] ∧
+    "w:workersCount" ∈ Gen.wpRegions_workerFunc.flatten := by decide
 
 /-! ### non-vacuity -/
 
